@@ -29,12 +29,12 @@ package heapz
 //@   requires[order] swo(cmp) && heapUpPre(s, cmp, n, j)
 //@   modifies s[0:n]
 //@   ensures[order] heapOK(s, cmp, n)
-//@   ensures[perm] forall k in 0..len(s): 0 <= pm[k] && pm[k] < len(s) && ipm[pm[k]] == k && (k >= n ==> pm[k] == k)
+//@   ensures[perm] forall k in 0..len(s): 0 <= pm[k] && pm[k] < len(s) && ipm[pm[k]] == k && 0 <= ipm[k] && ipm[k] < len(s) && pm[ipm[k]] == k && (k >= n ==> pm[k] == k)
 //@   ensures[perm] forall k in 0..len(s): s[k] == old(s[pm[k]])
 //@   loop 1:
 //@     invariant 0 <= j && j <= old(j) && unchangedOutside(s, 0, n)
 //@     invariant[order] heapUpPre(s, cmp, n, j)
-//@     invariant[perm] forall k in 0..len(s): 0 <= pm[k] && pm[k] < len(s) && ipm[pm[k]] == k && (k >= n ==> pm[k] == k)
+//@     invariant[perm] forall k in 0..len(s): 0 <= pm[k] && pm[k] < len(s) && ipm[pm[k]] == k && 0 <= ipm[k] && ipm[k] < len(s) && pm[ipm[k]] == k && (k >= n ==> pm[k] == k)
 //@     invariant[perm] forall k in 0..len(s): s[k] == old(s[pm[k]])
 //@     decreases j
 //@   at after-call2:
@@ -59,14 +59,14 @@ package heapz
 //@   ensures[order] !result ==> forall c in 1..n: ((c-1)/2 >= lo && c != i0) ==> edgeOK(s, cmp, c)
 //@   ensures[order] !result ==> bridgeFrom(s, cmp, n, i0, lo)
 //@   ensures[perm] !result ==> forall k in 0..len(s): s[k] == old(s[k])
-//@   ensures[perm] forall k in 0..len(s): 0 <= pm[k] && pm[k] < len(s) && ipm[pm[k]] == k && (k >= n ==> pm[k] == k) && (k < i0 ==> pm[k] == k)
+//@   ensures[perm] forall k in 0..len(s): 0 <= pm[k] && pm[k] < len(s) && ipm[pm[k]] == k && 0 <= ipm[k] && ipm[k] < len(s) && pm[ipm[k]] == k && (k >= n ==> pm[k] == k) && (k < i0 ==> pm[k] == k)
 //@   ensures[perm] forall k in 0..len(s): s[k] == old(s[pm[k]])
 //@   loop 1:
 //@     invariant i0 <= i && (i < n || i == i0) && unchangedOutside(s, 0, n)
 //@     invariant[order] forall c in 1..n: ((c-1)/2 >= lo && (c-1)/2 != i && (c != i0 || i != i0)) ==> edgeOK(s, cmp, c)
 //@     invariant[order] bridgeFrom(s, cmp, n, i, lo)
 //@     invariant[perm] i == i0 ==> forall k in 0..len(s): s[k] == old(s[k])
-//@     invariant[perm] forall k in 0..len(s): 0 <= pm[k] && pm[k] < len(s) && ipm[pm[k]] == k && (k >= n ==> pm[k] == k) && (k < i0 ==> pm[k] == k)
+//@     invariant[perm] forall k in 0..len(s): 0 <= pm[k] && pm[k] < len(s) && ipm[pm[k]] == k && 0 <= ipm[k] && ipm[k] < len(s) && pm[ipm[k]] == k && (k >= n ==> pm[k] == k) && (k < i0 ==> pm[k] == k)
 //@     invariant[perm] forall k in 0..len(s): s[k] == old(s[pm[k]])
 //@     decreases n - i
 //@   at after-call3:
@@ -83,7 +83,7 @@ package heapz
 //@   requires[order] swo(cmp) && heapFixPre(s, cmp, tail, index, 0)
 //@   modifies s[0:tail]
 //@   ensures[order] heapOK(s, cmp, tail)
-//@   ensures[perm] forall k in 0..len(s): 0 <= pm[k] && pm[k] < len(s) && ipm[pm[k]] == k && (k >= tail ==> pm[k] == k)
+//@   ensures[perm] forall k in 0..len(s): 0 <= pm[k] && pm[k] < len(s) && ipm[pm[k]] == k && 0 <= ipm[k] && ipm[k] < len(s) && pm[ipm[k]] == k && (k >= tail ==> pm[k] == k)
 //@   ensures[perm] forall k in 0..len(s): s[k] == old(s[pm[k]])
 //@   at after-call1:
 //@     ghost[perm] pm = last_pm
@@ -97,7 +97,7 @@ package heapz
 //@   ghost lo = 0
 //@   ghost[perm] pm = idseq()
 //@   ghost[perm] ipm = idseq()
-//@   ensures[perm] forall k in 0..len(s): 0 <= pm[k] && pm[k] < len(s) && ipm[pm[k]] == k
+//@   ensures[perm] forall k in 0..len(s): 0 <= pm[k] && pm[k] < len(s) && ipm[pm[k]] == k && 0 <= ipm[k] && ipm[k] < len(s) && pm[ipm[k]] == k
 //@   ensures[perm] forall k in 0..len(s): s[k] == old(s[pm[k]])
 //@   requires[order] swo(cmp)
 //@   modifies s[0:len(s)]
@@ -105,7 +105,7 @@ package heapz
 //@   loop 1:
 //@     invariant -1 <= i && i < n && n == len(s) && unchangedOutside(s, 0, n)
 //@     invariant[order] heapFrom(s, cmp, n, i + 1)
-//@     invariant[perm] forall k in 0..len(s): 0 <= pm[k] && pm[k] < len(s) && ipm[pm[k]] == k
+//@     invariant[perm] forall k in 0..len(s): 0 <= pm[k] && pm[k] < len(s) && ipm[pm[k]] == k && 0 <= ipm[k] && ipm[k] < len(s) && pm[ipm[k]] == k
 //@     invariant[perm] forall k in 0..len(s): s[k] == old(s[pm[k]])
 //@     decreases i + 1
 //@   at loop1.body-begin:
@@ -220,14 +220,16 @@ package heapz
 //@   modifies[perm] elemIndex(s)
 //@   ensures nonNil(s)
 //@   ensures[perm] idxOK(s)
+//@   ensures[perm] forall k in 0..len(s): 0 <= old(s)[k].index && old(s)[k].index < len(s) && s[old(s)[k].index] == old(s)[k]
 //@   ensures[order] heapOK(s, cmp, n)
-//@   ensures[perm] forall k in 0..len(s): 0 <= pm[k] && pm[k] < len(s) && ipm[pm[k]] == k && (k >= n ==> pm[k] == k)
+//@   ensures[perm] forall k in 0..len(s): 0 <= pm[k] && pm[k] < len(s) && ipm[pm[k]] == k && 0 <= ipm[k] && ipm[k] < len(s) && pm[ipm[k]] == k && (k >= n ==> pm[k] == k)
 //@   ensures[perm] forall k in 0..len(s): s[k] == old(s[pm[k]])
 //@   loop 1:
 //@     invariant 0 <= j && j <= old(j) && unchangedOutside(s, 0, n) && nonNil(s)
 //@     invariant[perm] idxOK(s) && elemIndexFrame(old(s))
+//@     invariant[perm] forall k in 0..len(s): 0 <= old(s)[k].index && old(s)[k].index < len(s) && s[old(s)[k].index] == old(s)[k]
 //@     invariant[order] heapUpPre(s, cmp, n, j)
-//@     invariant[perm] forall k in 0..len(s): 0 <= pm[k] && pm[k] < len(s) && ipm[pm[k]] == k && (k >= n ==> pm[k] == k)
+//@     invariant[perm] forall k in 0..len(s): 0 <= pm[k] && pm[k] < len(s) && ipm[pm[k]] == k && 0 <= ipm[k] && ipm[k] < len(s) && pm[ipm[k]] == k && (k >= n ==> pm[k] == k)
 //@     invariant[perm] forall k in 0..len(s): s[k] == old(s[pm[k]])
 //@     decreases j
 //@   at after-call2:
@@ -247,19 +249,21 @@ package heapz
 //@   modifies[perm] elemIndex(s)
 //@   ensures nonNil(s)
 //@   ensures[perm] idxOK(s)
+//@   ensures[perm] forall k in 0..len(s): 0 <= old(s)[k].index && old(s)[k].index < len(s) && s[old(s)[k].index] == old(s)[k]
 //@   ensures[order] result ==> heapFrom(s, cmp, n, lo)
 //@   ensures[order] !result ==> forall c in 1..n: ((c-1)/2 >= lo && c != i0) ==> edgeOK(s, cmp, c)
 //@   ensures[order] !result ==> bridgeFrom(s, cmp, n, i0, lo)
 //@   ensures[perm] !result ==> forall k in 0..len(s): s[k] == old(s[k])
-//@   ensures[perm] forall k in 0..len(s): 0 <= pm[k] && pm[k] < len(s) && ipm[pm[k]] == k && (k >= n ==> pm[k] == k) && (k < i0 ==> pm[k] == k)
+//@   ensures[perm] forall k in 0..len(s): 0 <= pm[k] && pm[k] < len(s) && ipm[pm[k]] == k && 0 <= ipm[k] && ipm[k] < len(s) && pm[ipm[k]] == k && (k >= n ==> pm[k] == k) && (k < i0 ==> pm[k] == k)
 //@   ensures[perm] forall k in 0..len(s): s[k] == old(s[pm[k]])
 //@   loop 1:
 //@     invariant i0 <= i && (i < n || i == i0) && unchangedOutside(s, 0, n) && nonNil(s)
 //@     invariant[perm] idxOK(s) && elemIndexFrame(old(s))
+//@     invariant[perm] forall k in 0..len(s): 0 <= old(s)[k].index && old(s)[k].index < len(s) && s[old(s)[k].index] == old(s)[k]
 //@     invariant[order] forall c in 1..n: ((c-1)/2 >= lo && (c-1)/2 != i && (c != i0 || i != i0)) ==> edgeOK(s, cmp, c)
 //@     invariant[order] bridgeFrom(s, cmp, n, i, lo)
 //@     invariant[perm] i == i0 ==> forall k in 0..len(s): s[k] == old(s[k])
-//@     invariant[perm] forall k in 0..len(s): 0 <= pm[k] && pm[k] < len(s) && ipm[pm[k]] == k && (k >= n ==> pm[k] == k) && (k < i0 ==> pm[k] == k)
+//@     invariant[perm] forall k in 0..len(s): 0 <= pm[k] && pm[k] < len(s) && ipm[pm[k]] == k && 0 <= ipm[k] && ipm[k] < len(s) && pm[ipm[k]] == k && (k >= n ==> pm[k] == k) && (k < i0 ==> pm[k] == k)
 //@     invariant[perm] forall k in 0..len(s): s[k] == old(s[pm[k]])
 //@     decreases n - i
 //@   at after-call3:
@@ -280,8 +284,9 @@ package heapz
 //@   modifies[perm] elemIndex(s)
 //@   ensures nonNil(s)
 //@   ensures[perm] idxOK(s)
+//@   ensures[perm] forall k in 0..len(s): 0 <= old(s)[k].index && old(s)[k].index < len(s) && s[old(s)[k].index] == old(s)[k]
 //@   ensures[order] heapOK(s, cmp, tail)
-//@   ensures[perm] forall k in 0..len(s): 0 <= pm[k] && pm[k] < len(s) && ipm[pm[k]] == k && (k >= tail ==> pm[k] == k)
+//@   ensures[perm] forall k in 0..len(s): 0 <= pm[k] && pm[k] < len(s) && ipm[pm[k]] == k && 0 <= ipm[k] && ipm[k] < len(s) && pm[ipm[k]] == k && (k >= tail ==> pm[k] == k)
 //@   ensures[perm] forall k in 0..len(s): s[k] == old(s[pm[k]])
 //@   at after-call1:
 //@     ghost[perm] pm = last_pm
@@ -295,7 +300,7 @@ package heapz
 //@   ghost lo = 0
 //@   ghost[perm] pm = idseq()
 //@   ghost[perm] ipm = idseq()
-//@   ensures[perm] forall k in 0..len(s): 0 <= pm[k] && pm[k] < len(s) && ipm[pm[k]] == k
+//@   ensures[perm] forall k in 0..len(s): 0 <= pm[k] && pm[k] < len(s) && ipm[pm[k]] == k && 0 <= ipm[k] && ipm[k] < len(s) && pm[ipm[k]] == k
 //@   ensures[perm] forall k in 0..len(s): s[k] == old(s[pm[k]])
 //@   requires nonNil(s)
 //@   requires[perm] idxOK(s)
@@ -304,12 +309,14 @@ package heapz
 //@   modifies[perm] elemIndex(s)
 //@   ensures nonNil(s)
 //@   ensures[perm] idxOK(s)
+//@   ensures[perm] forall k in 0..len(s): 0 <= old(s)[k].index && old(s)[k].index < len(s) && s[old(s)[k].index] == old(s)[k]
 //@   ensures[order] heapOK(s, cmp, len(s))
 //@   loop 1:
 //@     invariant -1 <= i && i < n && n == len(s) && unchangedOutside(s, 0, n) && nonNil(s)
 //@     invariant[perm] idxOK(s) && elemIndexFrame(old(s))
+//@     invariant[perm] forall k in 0..len(s): 0 <= old(s)[k].index && old(s)[k].index < len(s) && s[old(s)[k].index] == old(s)[k]
 //@     invariant[order] heapFrom(s, cmp, n, i + 1)
-//@     invariant[perm] forall k in 0..len(s): 0 <= pm[k] && pm[k] < len(s) && ipm[pm[k]] == k
+//@     invariant[perm] forall k in 0..len(s): 0 <= pm[k] && pm[k] < len(s) && ipm[pm[k]] == k && 0 <= ipm[k] && ipm[k] < len(s) && pm[ipm[k]] == k
 //@     invariant[perm] forall k in 0..len(s): s[k] == old(s[pm[k]])
 //@     decreases i + 1
 //@   at loop1.body-begin:
@@ -317,3 +324,110 @@ package heapz
 //@   at after-call2:
 //@     ghost[perm] pm = compseq(pm, last_pm)
 //@     ghost[perm] ipm = compseq(last_ipm, ipm)
+
+// ---- Heap[T]: representation invariant ----
+// every slot holds a non-nil element that knows its position and its heap; conversely every element whose heap
+// field is h sits in h.values at its index (so Remove/Fix can trust a handle, and stale/foreign handles are told apart)
+//@ spec slotsOK(h ref) bool = forall k in 0..len(h.values): h.values[k] != nil && h.values[k].index == k && h.values[k].heap == h
+//@ spec ownerOK(h ref) bool = forall e in refs(Element): (e != nil && e.heap == h) ==> (0 <= e.index && e.index < len(h.values) && h.values[e.index] == e)
+//@ spec heapInv(h ref) bool = slotsOK(h) && ownerOK(h)
+//@ spec orderInv(h ref) bool = swo(h.cmp) && heapOK(h.values, h.cmp, len(h.values))
+
+//@ func Element.Index
+//@   inline
+//@ func Heap.Len
+//@   inline
+
+//@ func Heap.Peek
+//@   ensures len(h.values) == 0 ==> result == nil
+//@   ensures len(h.values) > 0 ==> result == h.values[0]
+
+//@ func Heap.pop
+//@   requires len(h.values) > 0 && h.values[len(h.values)-1] != nil
+//@   requires[perm] heapInv(h)
+//@   modifies h.values, h.values[len(h.values)-1], h.values[len(h.values)-1].heap, h.values[len(h.values)-1].index
+//@   ensures result == old(h.values[len(h.values)-1]) && result.heap == nil && result.index == -1
+//@   ensures len(h.values) == old(len(h.values)) - 1 && sameArray(h.values, old(h.values)) && h.values.off == old(h.values.off)
+//@   ensures forall k in 0..len(h.values): h.values[k] == old(h.values[k])
+//@   ensures[perm] heapInv(h)
+
+//@ func Heap.PushElement
+//@   ghost n = 0
+//@   requires e != nil && e.heap != h && heapInv(h)
+//@   requires[order] orderInv(h)
+//@   modifies e.heap, e.index, h.values, h.values[0:cap(h.values)]
+//@   modifies[perm] elemIndex(h.values)
+//@   ensures len(h.values) == old(len(h.values)) + 1
+//@   ensures[perm] heapInv(h) && e.heap == h
+//@   ensures[perm] forall x in oldrefs(Element): (x != e && x.heap != h) ==> x.index == old(x.index)
+//@   ensures[order] orderInv(h)
+//@   at after-call2:
+//@     ghost n = len(h.values)
+//@     assert[perm] ownerOK(h)
+//@     assert[perm] slotsOK(h)
+
+//@ func Heap.Push
+//@   requires heapInv(h)
+//@   requires[order] orderInv(h)
+//@   modifies h.values, h.values[0:cap(h.values)]
+//@   modifies[perm] elemIndex(h.values)
+//@   ensures fresh(result) && result.Value == x && len(h.values) == old(len(h.values)) + 1
+//@   ensures[perm] heapInv(h) && result.heap == h
+//@   ensures[order] orderInv(h)
+
+//@ func Heap.Pop
+//@   ghost lo = 0
+//@   requires heapInv(h)
+//@   requires[order] orderInv(h)
+//@   modifies h.values, h.values[0:len(h.values)], h.values[0].heap
+//@   modifies[perm] elemIndex(h.values)
+//@   ensures old(len(h.values)) == 0 ==> result == nil
+//@   ensures old(len(h.values)) > 0 ==> result == old(h.values[0]) && len(h.values) == old(len(h.values)) - 1
+//@   ensures[perm] heapInv(h)
+//@   ensures[perm] old(len(h.values)) > 0 ==> result.index == -1 && result.heap == nil
+//@   ensures[order] orderInv(h)
+//@   ensures[order] old(len(h.values)) > 0 ==> forall k in 0..old(len(h.values)): !app(h.cmp, old(h.values)[k], result)
+//@   at begin:
+//@     apply[order] rootMinAll(rowof(h.values), offof(h.values), h.cmp, len(h.values))
+
+//@ func Heap.Remove
+//@   ghost lo = 0
+//@   requires e != nil && heapInv(h)
+//@   requires[order] orderInv(h)
+//@   modifies h.values, h.values[0:len(h.values)], e.heap
+//@   modifies[perm] elemIndex(h.values)
+//@   ensures old(e.heap) != h ==> (sameSlice(h.values, old(h.values)) && e.heap == old(e.heap))
+//@   ensures old(e.heap) == h ==> (len(h.values) == old(len(h.values)) - 1 && e.heap == nil)
+//@   ensures[perm] old(e.heap) == h ==> e.index == -1
+//@   ensures[perm] heapInv(h)
+//@   ensures[perm] forall x in oldrefs(Element): x != e ==> x.heap == old(x.heap)
+//@   ensures[order] orderInv(h)
+
+//@ func Heap.Fix
+//@   ghost lo = 0
+//@   requires e != nil && heapInv(h)
+//@   requires[order] swo(h.cmp) && (e.heap == h ==> heapFixPre(h.values, h.cmp, len(h.values), e.index, 0)) && (e.heap != h ==> heapOK(h.values, h.cmp, len(h.values)))
+//@   modifies h.values[0:len(h.values)]
+//@   modifies[perm] elemIndex(h.values)
+//@   ensures sameSlice(h.values, old(h.values))
+//@   ensures[perm] heapInv(h)
+//@   ensures[order] orderInv(h)
+
+// init contains a closure (rcmp compares the Value fields through cmp), which the generator does not model:
+// its contract is TRUSTED (listed in the evidence); build@swapEle, which does the work, is proved above.
+//@ func Heap.init
+//@   trusted
+//@   requires forall k in 0..len(values): values[k] != nil && values[k].index == k && values[k].heap == h
+//@   requires forall x in refs(Element): (x != nil && x.heap == h) ==> (0 <= x.index && x.index < len(values) && values[x.index] == x)
+//@   modifies h.values, h.cmp, values[0:len(values)], elemIndex(values)
+//@   ensures heapInv(h) && orderInv(h) && len(h.values) == len(values)
+
+// Init on a heap that no element refers to yet (a fresh or emptied heap)
+//@ func Heap.Init
+//@   requires forall x in refs(Element): x == nil || x.heap != h
+//@   modifies h.values, h.cmp
+//@   ensures heapInv(h) && orderInv(h) && len(h.values) == len(s)
+//@   loop 1:
+//@     invariant len(values) == len(s) && fresh(values)
+//@     invariant forall k in 0..i: values[k] != nil && values[k].index == k && values[k].heap == h
+//@     invariant forall x in refs(Element): (x != nil && x.heap == h) ==> (0 <= x.index && x.index < i && values[x.index] == x)
